@@ -167,12 +167,14 @@ class Prop:
             combos = rng.sample(combos, 700)
         for (a, b, c) in combos:
             r = rng.choice(roots)
-            for style in ('', ' all'):
+            # registered on the root / on every type as well / as a chain / one shared object per type
+            for style in ('', ' all', rng.choice([' nest', ' share', ' all share'])):
                 add('proj all %s%s' % (spec(r, {'@a': a, '@b': b, '@c': c}, {'@e': '["x", 1]'}), style), 'type-configuration')
         multi = [b for b in TYPE_BODIES if b.count('@') >= 2 and b.startswith('{\n  "x"')]
         for (a, b, c) in itertools.product(multi, repeat=3):
             for r in roots[:3]:
-                add('proj all %s' % spec(r, {'@a': a, '@b': b, '@c': c}, {'@e': '["x", 1]'}), 'type-configuration-multi-link')
+                add('proj all %s%s' % (spec(r, {'@a': a, '@b': b, '@c': c}, {'@e': '["x", 1]'}), rng.choice(['', ' all', ' nest', ' all share'])),
+                    'type-configuration-multi-link')
         self.exhaustive_note = ('every prefix and every single-byte deletion of %d schemas, enums, regexes, JSON documents and numbers; %s configurations of three user types over %d bodies'
                                 % (len(schemas) + len(samples.ENUMS) + len(samples.REGEXES) + len(samples.JSONS) + len(nums), 'all %d' % len(combos) if big else '700 random', len(TYPE_BODIES)))
         return cs
